@@ -11,7 +11,7 @@ from ..cfg import cfg_of
 from ..model import AnalysisError, FunctionInfo, bind_args
 from ..roles import roles_of
 from ..terms import call_name, canon, cmp_normal, conjuncts, const_num, const_str, guard_canon, guard_of, norm_stmt, state_key
-from .common import attr_stores, int_le_form, iter_stores, key_stores, reaching_assignments, self_attr_of, store_base
+from .common import deref_canon as _deref_c, attr_stores, int_le_form, iter_stores, key_stores, reaching_assignments, self_attr_of, store_base
 
 EXPLANATION = (
     "R1 who-may-call: the user callable is invoked at exactly one site; its attribute is read elsewhere only to store the reference in the "
@@ -296,7 +296,7 @@ def check(ctx):
                 ctx.ok(host, stmts[-1], f"main-loop budget = {B} == max - min(nfs, max - count) on a 12x13x12 grid of integer cases")
             if badN is not None:
                 # unclamped number of final samples: only safe if the final block cannot run when the clamp would bite
-                floop = [n for n in ast.walk(opt.node) if isinstance(n, ast.For) and call_name(n.iter) == "range" and n.iter.args and canon(n.iter.args[0]) == "OPT[noise_final_samples]"]
+                floop = [n for n in ast.walk(opt.node) if isinstance(n, ast.For) and call_name(n.iter) == "range" and n.iter.args and _deref_c(prog, opt, n.iter.args[0]) == "OPT[noise_final_samples]"]
                 from ..terms import guard_canon as _gc
 
                 g = _gc(prog, opt, floop[0]) if floop else []
